@@ -107,7 +107,8 @@ class Check:
             'seed': int(seed),
             'level': 'other',
             'coverage': {
-                'explanation': explanation,
+                'explanation': explanation + '  Rules evaluated in this run: ' + ', '.join(sorted(self.rules)) +
+                               ' (their statements are listed under coverage.rules, the instances per rule under coverage.per_rule).',
                 'rule': rule_text,
                 'rules': self.rules,
                 'obligations': len(self.obligations),
